@@ -121,6 +121,9 @@ def run(ck):
                 ok = True
         ck.decide(ok, R, "lit_bufsize", "1 << (mem_level + 6)", "lit_bufsize is not 1 << (memLevel + 6)", where(ini))
     heuristics(ck, P, ref)
+    # a copied stream has to keep every tuning field, or its bytes differ from the reference's copy
+    from . import c14 as _c14
+    _c14.copy_identity(ck, P)
     from .. import condparity
     ck.floor("SIB/ref-conditions", condparity.check(ck, P, "SIB/ref-conditions", only={"deflate_stored.c:deflate_stored", "deflate.c:fill_window", "deflate_fast.c:deflate_fast", "deflate_slow.c:deflate_slow", "deflate_medium.c:deflate_medium", "deflate_medium.c:emit_match", "deflate_medium.c:insert_match", "deflate_medium.c:fizzle_matches", "deflate_quick.c:deflate_quick", "deflate_rle.c:deflate_rle", "deflate_huff.c:deflate_huff", "trees.c:zng_tr_flush_block", "trees.c:gen_bitlen", "trees.c:build_tree", "trees.c:scan_tree", "trees.c:build_bl_tree", "deflate.c:deflate"}), 130)
     from .. import refwrites
